@@ -1,13 +1,450 @@
 package sqlidx
 
+// Shared helpers of the sqlidx suite (C25, C27, C24): schema parsing from SHOW CREATE TABLE,
+// SQL literals, the collation fold of the generated alphabet, the in-process reader of
+// secondary index maps, and a development script runner.
+
 import (
+	"context"
+	"fmt"
+	"io"
 	"os"
+	"regexp"
+	"sort"
+	"strconv"
 	"strings"
 	"testing"
+	"unicode/utf8"
 
+	"github.com/dolthub/dolt/go/libraries/doltcore/doltdb"
+	"github.com/dolthub/dolt/go/libraries/doltcore/doltdb/durable"
+	"github.com/dolthub/dolt/go/libraries/doltcore/ref"
+	"github.com/dolthub/dolt/go/libraries/doltcore/schema"
+	"github.com/dolthub/dolt/go/libraries/doltcore/sqle/dsess"
+	"github.com/dolthub/dolt/go/store/hash"
+	"github.com/dolthub/dolt/go/store/prolly/tree"
 	"github.com/dolthub/dolt/go/zzverif/vh"
 	"github.com/dolthub/dolt/go/zzverif/vsql"
 )
+
+// ---------------------------------------------------------------------------------------
+// schema as dolt reports it
+
+type sxCol struct {
+	Name    string
+	Type    string // lower-case type text, e.g. "varchar(16)"
+	IsInt   bool
+	IsText  bool // text/blob family (index needs a prefix length)
+	MaxLen  int  // varchar(n)/varbinary(n): n, else 0
+	Coll    string
+	NotNull bool
+}
+
+type sxIdxCol struct {
+	Name   string
+	Prefix int
+}
+
+type sxIndex struct {
+	Name   string
+	Unique bool
+	Cols   []sxIdxCol
+}
+
+type sxSchema struct {
+	Raw     string
+	Cols    []sxCol
+	PK      []string
+	Indexes []sxIndex
+}
+
+func (s *sxSchema) col(name string) *sxCol {
+	for i := range s.Cols {
+		if s.Cols[i].Name == name {
+			return &s.Cols[i]
+		}
+	}
+	return nil
+}
+
+func (s *sxSchema) colIdx(name string) int {
+	for i := range s.Cols {
+		if s.Cols[i].Name == name {
+			return i
+		}
+	}
+	return -1
+}
+
+func (s *sxSchema) isPK(name string) bool {
+	for _, p := range s.PK {
+		if p == name {
+			return true
+		}
+	}
+	return false
+}
+
+func (s *sxSchema) colNames() []string {
+	out := make([]string, len(s.Cols))
+	for i, c := range s.Cols {
+		out[i] = c.Name
+	}
+	return out
+}
+
+func (s *sxSchema) indexed(name string) bool {
+	for _, ix := range s.Indexes {
+		for _, c := range ix.Cols {
+			if c.Name == name {
+				return true
+			}
+		}
+	}
+	return false
+}
+
+var sxReColl = regexp.MustCompile(`COLLATE[ =]([A-Za-z0-9_]+)`)
+var sxReLen = regexp.MustCompile(`^(?:varchar|char|varbinary|binary)\((\d+)\)`)
+var sxReIdxCol = regexp.MustCompile("`([^`]+)`(?:\\((\\d+)\\))?")
+
+// sxParseCreate parses the text of SHOW CREATE TABLE (the grammar dolt prints: one column,
+// key or constraint per line).
+func sxParseCreate(create string) (*sxSchema, error) {
+	s := &sxSchema{Raw: create}
+	lines := strings.Split(create, "\n")
+	def := "utf8mb4_0900_bin"
+	if m := sxReColl.FindStringSubmatch(lines[len(lines)-1]); m != nil {
+		def = m[1]
+	}
+	for _, ln := range lines[1:] {
+		ln = strings.TrimSuffix(strings.TrimSpace(ln), ",")
+		switch {
+		case strings.HasPrefix(ln, "`"):
+			end := strings.Index(ln[1:], "`")
+			if end < 0 {
+				return nil, fmt.Errorf("bad column line %q", ln)
+			}
+			name := ln[1 : 1+end]
+			rest := strings.TrimSpace(ln[2+end:])
+			typ := rest
+			if sp := strings.IndexByte(rest, ' '); sp >= 0 {
+				typ = rest[:sp]
+			}
+			c := sxCol{Name: name, Type: strings.ToLower(typ), NotNull: strings.Contains(rest, "NOT NULL")}
+			lt := c.Type
+			switch {
+			case strings.HasPrefix(lt, "int"), strings.HasPrefix(lt, "bigint"), strings.HasPrefix(lt, "tinyint"), strings.HasPrefix(lt, "smallint"), strings.HasPrefix(lt, "mediumint"):
+				c.IsInt = true
+			case strings.Contains(lt, "text"), strings.Contains(lt, "blob"):
+				c.IsText = true
+			}
+			if m := sxReLen.FindStringSubmatch(lt); m != nil {
+				c.MaxLen, _ = strconv.Atoi(m[1])
+			}
+			c.Coll = def
+			if m := sxReColl.FindStringSubmatch(rest); m != nil {
+				c.Coll = m[1]
+			}
+			if strings.Contains(lt, "binary") || strings.Contains(lt, "blob") {
+				c.Coll = "binary"
+			}
+			s.Cols = append(s.Cols, c)
+		case strings.HasPrefix(ln, "PRIMARY KEY"):
+			for _, m := range sxReIdxCol.FindAllStringSubmatch(ln, -1) {
+				s.PK = append(s.PK, m[1])
+			}
+		case strings.HasPrefix(ln, "KEY "), strings.HasPrefix(ln, "UNIQUE KEY "):
+			ix := sxIndex{Unique: strings.HasPrefix(ln, "UNIQUE")}
+			ms := sxReIdxCol.FindAllStringSubmatch(ln, -1)
+			if len(ms) < 2 {
+				return nil, fmt.Errorf("bad key line %q", ln)
+			}
+			ix.Name = ms[0][1]
+			for _, m := range ms[1:] {
+				ic := sxIdxCol{Name: m[1]}
+				if m[2] != "" {
+					ic.Prefix, _ = strconv.Atoi(m[2])
+				}
+				ix.Cols = append(ix.Cols, ic)
+			}
+			s.Indexes = append(s.Indexes, ix)
+		}
+	}
+	if len(s.Cols) == 0 {
+		return nil, fmt.Errorf("no columns parsed from %q", create)
+	}
+	return s, nil
+}
+
+// sxLit renders a wire value as an SQL literal for a column of the given kind.
+func sxLit(v string, isInt bool) string {
+	if v == vsql.Null {
+		return "NULL"
+	}
+	if isInt {
+		return v
+	}
+	return "'" + strings.ReplaceAll(strings.ReplaceAll(v, `\`, `\\`), "'", "''") + "'"
+}
+
+// sxFold maps a string to its equality class under the collations the suite generates, for
+// the generated alphabet only (ASCII letters/digits, á, É, CJK): *_bin and binary compare
+// bytes; utf8mb4_0900_ai_ci, utf8mb4_general_ci and utf8mb4_unicode_ci ignore case and the
+// two generated accents. Generated values never end in a space (PAD SPACE is not exercised).
+func sxFold(coll, v string) string {
+	if v == vsql.Null {
+		return v
+	}
+	if coll == "binary" || strings.HasSuffix(coll, "_bin") {
+		return v
+	}
+	r := strings.NewReplacer("á", "a", "Á", "a", "é", "e", "É", "e")
+	return strings.ToLower(r.Replace(v))
+}
+
+// sxTrimBytes is the index prefix rule dolt uses (val.TrimValueToPrefixLength: bytes).
+func sxTrimBytes(v string, n int) string {
+	if v == vsql.Null || n <= 0 || len(v) <= n {
+		return v
+	}
+	return v[:n]
+}
+
+// sxTrimChars is the MySQL prefix rule (characters).
+func sxTrimChars(v string, n int) string {
+	if v == vsql.Null || n <= 0 {
+		return v
+	}
+	i := 0
+	for k := 0; k < n && i < len(v); k++ {
+		_, sz := utf8.DecodeRuneInString(v[i:])
+		i += sz
+	}
+	return v[:i]
+}
+
+func sxShort(v string) string {
+	v = strings.ReplaceAll(v, vsql.Null, "NULL")
+	if len(v) > 24 {
+		return fmt.Sprintf("%s…(%d)", v[:12], len(v))
+	}
+	return v
+}
+
+func sxShowRow(r []string) string {
+	p := make([]string, len(r))
+	for i, v := range r {
+		p[i] = sxShort(v)
+	}
+	return "(" + strings.Join(p, ",") + ")"
+}
+
+func sxShowRows(rows [][]string) string {
+	var p []string
+	for i, r := range rows {
+		if i >= 30 {
+			p = append(p, fmt.Sprintf("…(%d rows)", len(rows)))
+			break
+		}
+		p = append(p, sxShowRow(r))
+	}
+	return strings.Join(p, " ")
+}
+
+func sxSortRows(rows [][]string) [][]string {
+	out := append([][]string(nil), rows...)
+	sort.Slice(out, func(i, j int) bool { return strings.Join(out[i], "\x1f") < strings.Join(out[j], "\x1f") })
+	return out
+}
+
+func sxRowsEqual(a, b [][]string) bool {
+	if len(a) != len(b) {
+		return false
+	}
+	for i := range a {
+		if strings.Join(a[i], "\x1f") != strings.Join(b[i], "\x1f") {
+			return false
+		}
+	}
+	return true
+}
+
+// ---------------------------------------------------------------------------------------
+// in-process access to the stored secondary index maps
+
+type sxInProc struct {
+	srv *vsql.Server
+}
+
+// sxRootSpec names a root: Kind "working"/"staged" of Branch, or "commit" Hash.
+type sxRootSpec struct {
+	Kind   string
+	Branch string
+	Hash   string
+}
+
+func (r sxRootSpec) String() string {
+	if r.Kind == "commit" {
+		return "commit:" + r.Hash
+	}
+	return r.Kind + ":" + r.Branch
+}
+
+func (p *sxInProc) root(db string, spec sxRootSpec) (doltdb.RootValue, context.Context, error) {
+	if p.srv.Engine == nil {
+		return nil, nil, fmt.Errorf("no engine handle")
+	}
+	sqlCtx, err := p.srv.Engine.NewLocalContext(context.Background())
+	if err != nil {
+		return nil, nil, err
+	}
+	sess := dsess.DSessFromSess(sqlCtx.Session)
+	sdb, ok := sess.Provider().BaseDatabase(sqlCtx, db)
+	if !ok {
+		return nil, nil, fmt.Errorf("database %s not found in provider", db)
+	}
+	ddb := sdb.DbData().Ddb
+	switch spec.Kind {
+	case "working", "staged":
+		wsRef, err := ref.WorkingSetRefForHead(ref.NewBranchRef(spec.Branch))
+		if err != nil {
+			return nil, nil, err
+		}
+		ws, err := ddb.ResolveWorkingSet(sqlCtx, wsRef)
+		if err != nil {
+			return nil, nil, err
+		}
+		if spec.Kind == "working" {
+			return ws.WorkingRoot(), sqlCtx, nil
+		}
+		return ws.StagedRoot(), sqlCtx, nil
+	case "commit":
+		h, ok := hash.MaybeParse(spec.Hash)
+		if !ok {
+			return nil, nil, fmt.Errorf("bad hash %q", spec.Hash)
+		}
+		oc, err := ddb.ReadCommit(sqlCtx, h)
+		if err != nil {
+			return nil, nil, err
+		}
+		cm, ok := oc.ToCommit()
+		if !ok {
+			return nil, nil, fmt.Errorf("ghost commit %s", spec.Hash)
+		}
+		rv, err := cm.GetRootValue(sqlCtx)
+		return rv, sqlCtx, err
+	}
+	return nil, nil, fmt.Errorf("bad root spec %v", spec)
+}
+
+// sxStoredIndex is a secondary index map decoded to strings: Cols names the table column of
+// every key field (for a keyless table the trailing row-hash field is dropped).
+type sxStoredIndex struct {
+	Cols    []string
+	Entries [][]string
+	Keyless bool
+}
+
+var errSxUnsupported = fmt.Errorf("unsupported field type")
+
+func sxFmtField(v interface{}) (string, error) {
+	switch x := v.(type) {
+	case nil:
+		return vsql.Null, nil
+	case int8, int16, int32, int64, int, uint8, uint16, uint32, uint64, uint:
+		return fmt.Sprintf("%d", x), nil
+	case string:
+		return x, nil
+	case []byte:
+		return string(x), nil
+	}
+	return "", errSxUnsupported
+}
+
+// readIndexes decodes every secondary index of table tbl in the given root.
+// It returns nil (no error) when the table does not exist in that root.
+func (p *sxInProc) readIndexes(db string, spec sxRootSpec, tbl string) (map[string]*sxStoredIndex, error) {
+	root, ctx, err := p.root(db, spec)
+	if err != nil {
+		return nil, err
+	}
+	t, ok, err := root.GetTable(ctx, doltdb.TableName{Name: tbl})
+	if err != nil {
+		return nil, err
+	}
+	if !ok {
+		return nil, nil
+	}
+	sch, err := t.GetSchema(ctx)
+	if err != nil {
+		return nil, err
+	}
+	keyless := schema.IsKeyless(sch)
+	out := map[string]*sxStoredIndex{}
+	for _, def := range sch.Indexes().AllIndexes() {
+		idx, err := t.GetIndexRowData(ctx, def.Name())
+		if err != nil {
+			return nil, fmt.Errorf("index %s: %w", def.Name(), err)
+		}
+		m := durable.MapFromIndex(idx)
+		kd := m.KeyDesc()
+		si := &sxStoredIndex{Keyless: keyless}
+		for _, tag := range def.AllTags() {
+			c, ok := sch.GetAllCols().GetByTag(tag)
+			if !ok {
+				return nil, fmt.Errorf("index %s: tag %d has no column", def.Name(), tag)
+			}
+			si.Cols = append(si.Cols, c.Name)
+		}
+		n := kd.Count()
+		if keyless {
+			n--
+		}
+		if n != len(si.Cols) {
+			return nil, fmt.Errorf("index %s: key has %d fields, definition has %d columns", def.Name(), n, len(si.Cols))
+		}
+		it, err := m.IterAll(ctx)
+		if err != nil {
+			return nil, err
+		}
+		for {
+			k, _, err := it.Next(ctx)
+			if err == io.EOF {
+				break
+			}
+			if err != nil {
+				return nil, err
+			}
+			e := make([]string, n)
+			for i := 0; i < n; i++ {
+				v, err := tree.GetField(ctx, kd, i, k, m.NodeStore())
+				if err != nil {
+					return nil, err
+				}
+				if e[i], err = sxFmtField(v); err != nil {
+					return nil, err
+				}
+			}
+			si.Entries = append(si.Entries, e)
+		}
+		out[def.Name()] = si
+	}
+	return out, nil
+}
+
+// ---------------------------------------------------------------------------------------
+// server start shared by the checks
+
+func sxStart(t *testing.T, prefix string) (*vsql.Server, func()) {
+	dir, cleanup := vh.ScratchDir(t, prefix)
+	srv, err := vsql.StartServer(dir)
+	if err != nil {
+		cleanup()
+		vh.Inconclusive(t, "start: %v", err)
+	}
+	return srv, func() { srv.Stop(); cleanup() }
+}
 
 // TestDev_Script is a development aid (never selected by the registry): it runs the
 // statements of $VERIF_SQL_FILE (one per line; lines starting with "--" are comments, a
@@ -21,13 +458,8 @@ func TestDev_Script(t *testing.T) {
 	if err != nil {
 		t.Fatal(err)
 	}
-	dir, cleanup := vh.ScratchDir(t, "dev")
-	defer cleanup()
-	srv, err := vsql.StartServer(dir)
-	if err != nil {
-		vh.Inconclusive(t, "start: %v", err)
-	}
-	defer srv.Stop()
+	srv, stop := sxStart(t, "dev")
+	defer stop()
 	admin := srv.Session(t, "admin", "")
 	admin.MustExec(t, "CREATE DATABASE d1")
 	sess := map[string]*vsql.Session{}
@@ -39,9 +471,27 @@ func TestDev_Script(t *testing.T) {
 		sess[n] = s
 		return s
 	}
+	inproc := &sxInProc{srv: srv}
 	for _, line := range strings.Split(string(b), "\n") {
 		line = strings.TrimSpace(line)
 		if line == "" || strings.HasPrefix(line, "--") {
+			continue
+		}
+		if strings.HasPrefix(line, "!index ") { // !index <table> : dump stored indexes of main's working root
+			f := strings.Fields(line)
+			m, err := inproc.readIndexes("d1", sxRootSpec{Kind: "working", Branch: "main"}, f[1])
+			if err != nil {
+				t.Logf("%s\n    ERROR %v", line, err)
+				continue
+			}
+			var names []string
+			for n := range m {
+				names = append(names, n)
+			}
+			sort.Strings(names)
+			for _, n := range names {
+				t.Logf("%s: %s cols=%v keyless=%v\n    %s", line, n, m[n].Cols, m[n].Keyless, sxShowRows(m[n].Entries))
+			}
 			continue
 		}
 		name := "a"
